@@ -218,7 +218,8 @@ def c04_stages(tier):
 
 
 def c05_stages(tier):
-    return history_stages(tier) + prune_stages(tier)
+    # histories, pruning pipelines, and the witness-repair heuristic mirror_points on its own
+    return history_stages(tier) + prune_stages(tier) + [Stage('mirror-q', 'Trace_Linalg', mc=('MC_Linalg', 'MC_Linalg_mirror_q.cfg'), shard_events=400, mc_workers=12)]
 
 
 def c06_stages(tier):
